@@ -426,6 +426,48 @@ class Repo:
                 return True
         return False
 
+    def table_writers(self, module: str, name: str) -> List[str]:
+        """functions anywhere in the package that re-bind or mutate the module-level table ``module.name`` after import
+        (assignment / deletion of entries, update / pop / clear / setdefault, ``global name`` re-binding)"""
+        out: List[str] = []
+        muts = ('update', 'pop', 'popitem', 'clear', 'setdefault', 'append', 'extend', 'insert', 'remove', '__setitem__', '__delitem__')
+        for f in self.all_functions():
+            local = {a.arg for a in f.node.args.args} | {n.id for n in ast.walk(f.node) if isinstance(n, ast.Name) and isinstance(n.ctx, ast.Store)}
+            globals_ = {g for n in ast.walk(f.node) if isinstance(n, ast.Global) for g in n.names}
+
+            def is_table(e) -> bool:
+                if isinstance(e, ast.Name) and e.id == name and (e.id not in local or e.id in globals_):
+                    try:
+                        r = self.resolve_name(e.id, f.module)
+                    except NotConst:
+                        return False
+                    return isinstance(r, tuple) and r[0] == 'assign' and r[1].name == module
+                if isinstance(e, ast.Attribute) and e.attr == name:
+                    try:
+                        r = self.resolve_expr(e, f.module)
+                    except NotConst:
+                        return False
+                    except Exception:
+                        return False
+                    return isinstance(r, tuple) and r[0] == 'assign' and r[1].name == module
+                return False
+            for n in ast.walk(f.node):
+                hit = None
+                if isinstance(n, (ast.Assign, ast.AugAssign, ast.Delete)):
+                    tgts = n.targets if isinstance(n, (ast.Assign, ast.Delete)) else [n.target]
+                    for t in tgts:
+                        if isinstance(t, ast.Subscript) and is_table(t.value):
+                            hit = ast.unparse(t)
+                        elif isinstance(t, ast.Name) and t.id == name and t.id in globals_ and f.module.name == module:
+                            hit = 'global %s' % name
+                        elif isinstance(t, ast.Attribute) and is_table(t):
+                            hit = ast.unparse(t)
+                elif isinstance(n, ast.Call) and isinstance(n.func, ast.Attribute) and n.func.attr in muts and is_table(n.func.value):
+                    hit = ast.unparse(n.func)
+                if hit:
+                    out.append('%s: %s (line %d)' % (f.key, hit, getattr(n, 'lineno', 0)))
+        return out
+
     def is_helper_class(self, c: 'ClassInfo') -> bool:
         """a class that did not exist when the rule instances were confirmed (oracles/inventory.py)"""
         from .oracles.inventory import CLASSES
